@@ -1312,7 +1312,7 @@ impl C15 {
         let batch = phase.param["batch"].as_bool().unwrap_or(false);
         let total = 6u64.pow(n as u32);
         let mut idx = sink.shard;
-        if let Mode::Describe(i) = sink.mode {
+        if let Some(i) = sink.single() {
             idx = i;
         }
         while idx < total {
@@ -1325,7 +1325,7 @@ impl C15 {
                 || json!({"part": "a", "text": text, "batch": batch}),
                 |s| run_edit_case(&text, batch, Some(s)),
             );
-            if let Mode::Describe(_) = sink.mode {
+            if sink.single().is_some() {
                 break;
             }
             idx += sink.nshards;
